@@ -28,7 +28,7 @@ var lineNoRe = regexp.MustCompile(`/[A-Za-z_]+\.go:[0-9]+`)
 type c19Params struct {
 	Upload  bool   `json:"upload"`
 	Helper  string `json:"helper"`         // missing | exit0 | exit1 | run0 | run1 | run3 | silent | late
-	Server  string `json:"server"`         // finish | cancel-before | cancel-after | keeps | quiet
+	Server  string `json:"server"`         // finish | cancel-before | cancel-before-split | cancel-before-8can | cancel-after | keeps | quiet
 	CtrlCMs int    `json:"ctrlc_ms"`       // < 0: none; otherwise the user presses Ctrl-C that long after the header
 	Veto    string `json:"veto,omitempty"` // "cancel" | "cannot-open": the header's read also carries this (must not start a session)
 	// InputFirst (used by C05): once the session is over and the remote side has been quiet, the user types
@@ -178,6 +178,15 @@ func c19Exec(p c19Params) vs.ExecFn {
 					bye()
 				case "cancel-before":
 					say(string(zmodemCancelFullSequence))
+					bye()
+				case "cancel-before-split":
+					// the transport cuts lrzsz's 10 x CAN + 10 x BS into two reads
+					say(string(zmodemCancelFullSequence[:6]))
+					say(string(zmodemCancelFullSequence[6:]))
+					bye()
+				case "cancel-before-8can":
+					// another zmodem implementation: the classic 8 x CAN + 10 x BS attention string
+					say(strings.Repeat("\x18", 8) + strings.Repeat("\x08", 10))
 					bye()
 				case "cancel-after":
 					vs.WaitUntilOrTimeout("remote.wait", 25*time.Second, func() bool { return fromClient() })
@@ -333,7 +342,7 @@ func init() {
 	vs.Register(&vs.Check{
 		ID:    "C19",
 		Level: "model_checking",
-		Rule: "real filter with zmodem enabled x helper behaviour {missing, exits 0, exits 1, runs 0/1/3 chunks then finishes, never outputs, outputs after the remote finished} x remote behaviour {finishes, cancels before / after the helper starts, keeps sending 2 s, quiet} x Ctrl-C {none, 0 ms, 150 ms, 1 s after the header} x upload/download, " +
+		Rule: "real filter with zmodem enabled x helper behaviour {missing, exits 0, exits 1, runs 0/1/3 chunks then finishes, never outputs, outputs after the remote finished} x remote behaviour {finishes, cancels before the helper starts (lrzsz cancel string in one read, cut into two reads, and the 8 x CAN form) / after it started, keeps sending 2 s, quiet} x Ctrl-C {none, 0 ms, 150 ms, 1 s after the header} x upload/download, " +
 			"plus headers vetoed by a cancel sequence or 'cannot open'; all schedules within 1 (quick) / 2 (thorough) deviations of the default one, a timer landing first being one of them; then a transparency probe 0.7 s and 1.4 s after the remote went quiet",
 		Assumptions: []string{"the local rz/sz is a model (vexec): it leaves when killed or sent the cancel sequence, real lrzsz is not installed", "the remote rz/sz is scripted; after a cancel it prints a line and a prompt except in the 'quiet' behaviour"},
 		TraceNote:   "explored directly on the implementation; the number counts executions replayed from recorded choice lists",
@@ -346,7 +355,7 @@ func init() {
 			}
 			for _, up := range []bool{false, true} {
 				for _, h := range []string{"missing", "exit0", "exit1", "run0", "run1", "run3", "silent", "late"} {
-					for _, srv := range []string{"finish", "cancel-before", "cancel-after", "keeps", "quiet"} {
+					for _, srv := range []string{"finish", "cancel-before", "cancel-before-split", "cancel-before-8can", "cancel-after", "keeps", "quiet"} {
 						for _, cc := range []int{-1, 0, 150, 1000} {
 							if cc > 0 && tier != "thorough" && !(h == "run3" || h == "silent" || h == "missing") {
 								continue
